@@ -7,6 +7,7 @@ package main
 
 import (
 	"fmt"
+	"go/ast"
 	"go/token"
 	"go/types"
 	"os"
@@ -999,6 +1000,36 @@ func (x *Exec) loopCompleteObligations(st *State, fr *Frame, ct *Contract) {
 		}
 		return false
 	}
+	// A for statement whose body can never reach its own header again (every path through it ends in break
+	// or return) is not a loop of the control flow graph. When the contract names more loops than the graph
+	// has while the source still has the for statements, one of them has degenerated: that is decided (the
+	// statement iterates at most once, so whatever the contract says about its iterations, early exits or
+	// completeness is false of it), not a contract that merely cannot be evaluated.
+	if n := astLoopCount(fr.fn); n > len(x.loopsOf(fr.fn)) {
+		named := 0
+		for _, d := range ct.Directives["site"] {
+			f := strings.Fields(d)
+			if len(f) >= 2 && f[0] == "loop" {
+				if k, err := strconv.Atoi(f[1]); err == nil && k > named {
+					named = k
+				}
+			}
+		}
+		for _, cl := range ct.Invariants {
+			if cl.Loop > named {
+				named = cl.Loop
+			}
+		}
+		for _, d := range ct.Directives["loop-complete"] {
+			if k, err := strconv.Atoi(strings.TrimSpace(d)); err == nil && k > named {
+				named = k
+			}
+		}
+		if named > len(x.loopsOf(fr.fn)) {
+			x.oblige(st, "loop-exit", fmt.Sprintf("every for statement the contract speaks about can iterate: the function has %d for statements but only %d of them can reach a second iteration (a path through the body of the other leads to break or return on every branch)", n, len(x.loopsOf(fr.fn))), TFalse, fr.fn.Pos(), ct.allProps())
+			return
+		}
+	}
 	for _, d := range ct.Directives["site"] {
 		f := strings.Fields(d)
 		if len(f) >= 2 && f[0] == "loop" {
@@ -1073,4 +1104,29 @@ func fnInRepo(fn *ssa.Function) bool {
 		pkg = q.Parent().Pkg
 	}
 	return pkg != nil && strings.HasPrefix(pkg.Pkg.Path(), repoModule)
+}
+
+// astLoopCount: the number of for / range statements in the function's own body (function literals excluded).
+func astLoopCount(fn *ssa.Function) int {
+	var body *ast.BlockStmt
+	switch n := fn.Syntax().(type) {
+	case *ast.FuncDecl:
+		body = n.Body
+	case *ast.FuncLit:
+		body = n.Body
+	}
+	if body == nil {
+		return 0
+	}
+	count := 0
+	ast.Inspect(body, func(n ast.Node) bool {
+		switch n.(type) {
+		case *ast.FuncLit:
+			return false
+		case *ast.ForStmt, *ast.RangeStmt:
+			count++
+		}
+		return true
+	})
+	return count
 }
